@@ -13,6 +13,7 @@ from verif.engine import Ob
 LEVEL = "translation_validation"
 BOUNDS = {
     "eager vs jit": "what distinguishes an eager run from a jitted one is which arguments are concrete while GenJAX's Python runs: every discrete argument (switch index, mask / or_else flag) of each catalogue program is tried as a concrete Python/NumPy value (indices -1..n, both flags) against the fully traced run; float arguments are traced on both sides",
+    "masked constraints": "update with a constraint masked by a Python bool vs a traced flag (both values, with and without changed arguments, followed by a second update)",
     "vmap": "jax.vmap over (key, args, constraint values) with batch size 2 vs the two unbatched calls",
     "operations": "simulate, assess, importance (empty / partial / full constraint), update (with changed args), project, regenerate",
 }
@@ -116,6 +117,31 @@ def obligations(tier, seed):
 
                     obs.append(Ob(f"C23/concrete={list(combo)}{'' if flavour == 'py' else ',numpy'}/{opn}/{nm}", f, (KEY, P.args, P.example_vals()), assume=assume, timeout_s=30,
                                   note="the operation with the discrete arguments given as concrete values (what an eager call sees) == the fully traced operation (what jit sees) at those values, all other inputs symbolic"))
+    # ---- (A') a constraint masked by a flag: the eager caller holds a Python bool (mask(False) is the empty map, mask(True) the map itself),
+    # the jitted caller a traced flag (the constraint stays a Mask and goes through the distribution's masked path)
+    import z3
+
+    for nm in ["normal", "inner2", "vmap(inner1)", "scan(walk)"] + (["switch(inner1,inner2s)", "static(vmap)"] if tier == "thorough" else []):
+        if nm not in cat:
+            continue
+        P = cat[nm]()
+        A = gfi.base_assume(P, in_range=False)
+        for c in (False, True):
+            for chg in (False, True):
+                def fm(key, args, vals, flag, P=P, c=c, chg=chg):
+                    def op(fl):
+                        tr, _ = P.gf.importance(key, P.chm(vals), args)
+                        args2 = jax.tree_util.tree_map(lambda x: x + 0.25 if jnp.issubdtype(jnp.asarray(x).dtype, jnp.floating) else x, args) if chg else args
+                        vals2 = [v + 0.5 if jnp.issubdtype(v.dtype, jnp.floating) else v for v in vals]
+                        tr2, w, rd, bwd = Update(P.chm(vals2, subset=(0,)).mask(fl)).edit(key, tr, Diff.unknown_change(args2) if chg else Diff.no_change(args))
+                        u3, w3, _, _ = tr2.update(key, P.chm(vals, subset=(0,)))  # a following update sees the first one's cached scores
+                        return gfi.full_view(P, tr2)[0] + [w, w3, u3.get_score()]
+
+                    return op(flag), op(c)
+
+                obs.append(Ob(f"C23/masked-constraint-flag={c}{'+args' if chg else ''}/update/{nm}", fm, (KEY, P.args, P.example_vals(), jnp.array(True)),
+                              assume=lambda k, a, v, f, A=A, c=c: A(a, v) + [f[()] if c else z3.Not(f[()])], timeout_s=60,
+                              note="update with a constraint masked by a Python bool (eager) == the same with a traced flag of that value (jit), incl. a following update"))
     # ---- (B) jax.vmap over key, args and constraint values: slice i == unbatched call on slice i
     bnames = ["normal", "inner2", "vmap(inner1)", "scan(walk)", "switch(inner1,inner2s)", "mask(inner1)", "dimap(inner1)"]
     if tier == "thorough":
